@@ -6,6 +6,7 @@ import (
 	"time"
 
 	abci "github.com/cometbft/cometbft/abci/types"
+	cmttypes "github.com/cometbft/cometbft/types"
 	dbm "github.com/cosmos/cosmos-db"
 )
 
@@ -281,4 +282,64 @@ func (s *Sim) ExecTwin(b Block, txsWithout, txsWith [][]byte) (*TwinResult, erro
 		return res, fmt.Errorf("consensus engine rejects validator updates at height %d: %w", b.Height, err)
 	}
 	return res, nil
+}
+
+// Reimport ends the running chain and continues the history on a fresh application that is
+// initialised from the exported state (ExportAppStateAndValidators -> InitChain at the next height,
+// with the exported validators), the way a chain is restarted from an export. The fake EL, the block
+// clock and the registered keys carry over; the consensus model is re-seeded from the InitChain
+// response (so the first block of the new chain has an empty last commit). Replicas are re-created
+// from the same export.
+func (s *Sim) Reimport() (err error) {
+	defer func() {
+		if r := recover(); r != nil {
+			err = fmt.Errorf("export/import panicked: %v", r)
+		}
+	}()
+	e1, err := s.Node.App.ExportAppStateAndValidators(false, nil, nil)
+	if err != nil {
+		return fmt.Errorf("export: %w", err)
+	}
+	var reqVals []abci.ValidatorUpdate
+	for _, v := range e1.Validators {
+		tv := cmttypes.NewValidator(v.PubKey, v.Power)
+		reqVals = append(reqVals, cmttypes.TM2PB.ValidatorUpdate(tv))
+	}
+	spec2 := s.Spec
+	spec2.Time = s.Chain.Time
+	spec2.InitialHeight = e1.Height
+	boot := func(eng *Engine, valIdx int) (*Node, *abci.ResponseInitChain, error) {
+		m, err := NewNode(dbm.NewMemDB(), eng, valIdx, s.Spec.ChainID)
+		if err != nil {
+			return nil, nil, err
+		}
+		resp, err := m.InitChainRaw(s.Spec.ChainID, e1.Height, spec2, e1.AppState, reqVals)
+		if err != nil {
+			m.Close()
+			return nil, nil, fmt.Errorf("InitChain from the exported state: %w", err)
+		}
+		return m, resp, nil
+	}
+	old := s.Node
+	old.closeClient()
+	m, resp, err := boot(old.Eng, old.ValIdx)
+	if err != nil {
+		return err
+	}
+	m.ownEng = old.ownEng
+	ch, err := NewChain(spec2, resp.Validators)
+	if err != nil {
+		m.Close()
+		return fmt.Errorf("initial validator set of the re-imported chain: %w", err)
+	}
+	s.Node, s.Chain, s.Spec, s.InitVals = m, ch, spec2, resp.Validators
+	for i, r := range s.Replicas {
+		r.Close()
+		n, _, err := boot(nil, 1+i)
+		if err != nil {
+			return fmt.Errorf("replica: %w", err)
+		}
+		s.Replicas[i] = n
+	}
+	return nil
 }
